@@ -143,3 +143,29 @@ func (g *BadO3) BindRemoteStream(_ *interceptor.StreamInfo, r interceptor.RTPRea
 		return n, attr, nil
 	})
 }
+
+// ---- O4: what a factory builds is not shared through the factory --------------------------------------------------------------
+
+type o4state struct {
+	mu   sync.Mutex
+	seen map[uint16]bool
+}
+
+type o4icpt struct {
+	interceptor.NoOp
+	state *o4state
+	name  string
+}
+
+type GoodO4Factory struct{ name string }
+
+func (f *GoodO4Factory) NewInterceptor(_ string) (interceptor.Interceptor, error) {
+	return &o4icpt{state: &o4state{seen: map[uint16]bool{}}, name: f.name}, nil
+}
+
+type BadO4Factory struct{ template o4icpt }
+
+func (f *BadO4Factory) NewInterceptor(_ string) (interceptor.Interceptor, error) {
+	in := f.template
+	return &in, nil
+}
